@@ -114,7 +114,7 @@ func (g *gen) doInstr(ci *cfgInfo, in ssa.Instruction) {
 		n := g.toIdx(g.operand(x.Len))
 		es, _ := g.sortOf(x.Type().Underlying().(*types.Slice).Elem())
 		h := g.heapSlice(es)
-		zero := fmt.Sprintf("((as const (Array %s %s)) %s)", g.idx, es, g.zeroOfSort(es, x.Type().Underlying().(*types.Slice).Elem()))
+		zero := g.constArray(fmt.Sprintf("(Array %s %s)", g.idx, es), es, x.Type().Underlying().(*types.Slice).Elem())
 		g.setComp(h, sx("store", g.comp(h, ""), addr, zero))
 		g.setVal(x, sx("mk-slice", addr, g.idxLit(0), n))
 	case *ssa.MakeMap, *ssa.MakeChan:
@@ -953,6 +953,9 @@ func (g *gen) applyCall(val ssa.Value, c *ssa.CallCommon, full, short string, or
 		if len(res) == 1 {
 			e.vars["result"] = res[0]
 		}
+		if errRes != nil {
+			e.vars["errResult"] = *errRes
+		}
 		e.assuming = true
 		for _, en := range ct.Ensures {
 			g.assume(implies(g.curReach, g.specBool(e, en)))
@@ -1127,8 +1130,7 @@ func (g *gen) doRunDefers(x *ssa.RunDefers) {
 				}
 			}
 			if writes {
-				g.havocHeap("deferred closure " + fn.Name())
-				g.warn("deferred closure %s writes captured variables: heap havocked at return", fn.Name())
+				g.runDeferredClosure(mc, fn)
 			}
 		}
 	}
@@ -1150,4 +1152,70 @@ func (g *gen) noteExtern(ct *Contract) {
 		}
 	}
 	g.usedExterns = append(g.usedExterns, s)
+}
+
+// runDeferredClosure: effect of a deferred closure that writes captured variables.  Captured cells
+// of error type into which the closure only ever stores non-nil values (error constructors,
+// boxed concrete values) keep their non-nil-ness: new == old || new != nil.  Every other written
+// cell is havocked; if the closure passes a captured address on, the whole heap is.
+func (g *gen) runDeferredClosure(mc *ssa.MakeClosure, fn *ssa.Function) {
+	for k, bnd := range mc.Bindings {
+		fv := fn.FreeVars[k]
+		if g.freeVarReadOnly(fv, map[ssa.Value]bool{}) {
+			continue
+		}
+		pt, ok := fv.Type().Underlying().(*types.Pointer)
+		refs := fv.Referrers()
+		simple := ok && refs != nil
+		nonNil := true
+		if simple {
+			for _, r := range *refs {
+				switch x := r.(type) {
+				case *ssa.Store:
+					if x.Addr != ssa.Value(fv) {
+						simple = false
+					} else if !g.definitelyNonNilErr(x.Val) {
+						nonNil = false
+					}
+				case *ssa.UnOp, *ssa.DebugRef:
+				default:
+					simple = false
+				}
+			}
+		}
+		if !simple {
+			g.havocHeap("deferred closure " + fn.Name())
+			g.warn("deferred closure %s passes captured variables on: heap havocked at return", fn.Name())
+			return
+		}
+		addr := g.operand(bnd).S
+		old := g.loadAt(addr, pt.Elem())
+		nw := g.freshOfType(pt.Elem(), "dfr."+mangle(fv.Name()))
+		if nw.Sort == sErr && nonNil {
+			g.assume(or(sx("=", nw.S, old), not(sx("=", nw.S, "errnil"))))
+		}
+		g.storeAt(addr, pt.Elem(), nw.S)
+	}
+}
+
+func (g *gen) definitelyNonNilErr(v ssa.Value) bool {
+	switch x := v.(type) {
+	case *ssa.MakeInterface:
+		return true
+	case *ssa.Call:
+		full, _ := g.calleeName(&x.Call)
+		if ct := g.w.contractFor(full, g.unit); ct != nil {
+			for _, en := range ct.Ensures {
+				t := strings.ReplaceAll(en.Text, " ", "")
+				if t == "e!=nil" || t == "errResult!=nil" {
+					return true
+				}
+			}
+		}
+		if full == "errors.Join" || full == "errors.New" || full == "fmt.Errorf" {
+			// Join of anything with a non-nil is non-nil only if some argument is; be conservative
+			return full != "errors.Join"
+		}
+	}
+	return false
 }
